@@ -235,7 +235,8 @@ let () =
   Hashtbl.replace listfuns "traits_snap" traits_line;
   Hashtbl.replace listfuns "chain" chain_line;
   Hashtbl.replace listfuns "guard" guard_line;
-  Hashtbl.replace listfuns "tls" tls_line
+  Hashtbl.replace listfuns "tls" tls_line;
+  Hashtbl.replace listfuns "once" once_line
 
 (* evaluate the executable count invariant (RcCheck.rc_invcheck) after every step of every rc case *)
 let inv file =
